@@ -309,10 +309,61 @@ def _unordered_equal(res, single, pos, cshape):
     return _points_multiset_equal(a, b)
 
 
+def _eq_reduction(ctx, call):
+    """`==` of two collections is one truth value: it must be the conjunction of the comparisons of the elements (for polygons the library
+    uses one re-ordering of the vertex cycle for the whole collection: a False is judged only when one common re-ordering exists)."""
+    if call.exc is not None or len(call.args) != 2 or not isinstance(call.result, (bool, np.bool_)):
+        return
+    a, b = call.args
+    if not (_is_tensor(a) and _is_tensor(b)) or type(a) is not type(b) or coll_axes(a) == 0 or coll_shape(a) != coll_shape(b) or a.shape != b.shape:
+        return
+    cshape = coll_shape(a)
+    if int(np.prod(cshape)) == 0:
+        return
+    positions = R.positions(tuple(cshape), MAXPOS)
+    complete = len(positions) == int(np.prod(cshape))
+    try:
+        per = [bool(element_of(a, pos, cshape) == element_of(b, pos, cshape)) for pos in positions]
+    except Exception as e:
+        ctx.skip("shadow", f"== of the elements not computable: {type(e).__name__}")
+        return
+    got = bool(call.result)
+    feat = {"op": call.name, "classes": [type(a).__name__, type(b).__name__], "cshape": list(cshape), "multi_axis": len(cshape) > 1}
+    ctx.note(("shadow_ops", call.name))
+    if got:
+        ctx.judge("shadow", all(per), [a, b], what=f"{call.name}: the collections compare equal but the elements at {[p for p, r in zip(positions, per) if not r][:3]} do not",
+                  op=call.name, feat=feat, nontrivial=True)
+        return
+    if not all(per):
+        ctx.judge("shadow", True, [a, b], op=call.name, nontrivial=True)
+        return
+    if not complete:
+        ctx.skip("shadow", "== False, positions only sampled")
+        return
+    from geometer.shapes import PolytopeTensor
+
+    if isinstance(a, PolytopeTensor):
+        from .c17 import _cycle_matches, _exactable
+
+        if getattr(a, "pdim", 0) > 2 or not (_exactable(a.array) and _exactable(b.array)):
+            ctx.skip("shadow", "== False for polytope collections that cannot be compared exactly")
+            return
+        common = None
+        for pos in positions:
+            m = _cycle_matches(a.array[pos], b.array[pos])
+            common = m if common is None else (common & m)
+        if not common:
+            ctx.skip("shadow", "polytope collections whose elements need different re-orderings of the vertex cycle")
+            return
+    ctx.judge("shadow", False, [a, b], what=f"{call.name}: the collections compare unequal although every pair of elements compares equal", op=call.name, feat=feat, nontrivial=True)
+
+
 def post_shadow(ctx, call):
     if call.depth != 0:
         return
     opname = call.name.split(".")[-1]
+    if opname == "__eq__":
+        return _eq_reduction(ctx, call)
     if opname in SKIP_OPS:
         return
     operands = [a for a in list(call.args) + list(call.kwargs.values()) if _is_tensor(a)]
@@ -604,6 +655,49 @@ def g_catalogue(ctx, rng, i):
                 except Exception:
                     pass
         for step in (lambda: pc.area, lambda: pc.contains(pts), lambda: pc.intersect(ln), lambda: pc.area, lambda: pc.contains(pts), lambda: pc.vertices, lambda: pc.intersect(ln)):
+            try:
+                step()
+            except Exception:
+                pass
+        # == of collections: the same polygons written from another start vertex / in the other orientation, the members in another order
+        arr = pc.array
+        k = int(rng.integers(0, 4))
+        others = [np.roll(arr, k, axis=-2), np.flip(arr, axis=-2), np.roll(np.flip(arr, axis=-2), k, axis=-2) * -2, arr[::-1], np.flip(arr[::-1], axis=-2),
+                  np.stack([arr, arr[::-1]]), np.flip(np.stack([arr, arr[::-1]]), axis=-2)]
+        for o in others:
+            try:
+                oc = g.PolygonCollection(o)
+                (pc if o.ndim == 3 else g.PolygonCollection(np.stack([arr, arr[::-1]]))) == oc
+            except Exception:
+                pass
+        # segment collections of space with skew and meeting pairs mixed; the supporting lines of a meeting pair cross inside / at the end of /
+        # beyond the end of the second segment
+        o_ = gen.coords(rng, (3,), 3, "int")
+        u = gen.nonzero_vec(rng, 3, 3)
+        for _ in range(20):
+            v = gen.nonzero_vec(rng, 3, 3)
+            w = gen.nonzero_vec(rng, 3, 3)
+            if abs(np.linalg.det(np.stack([u, v, w]))) > 0.5:
+                break
+        else:
+            return
+        h = lambda c: np.append(c, 1)  # noqa: E731
+        A_, B_ = [], []
+        for kind in rng.permutation(5):
+            A_.append([h(o_ - 2 * u), h(o_ + 2 * u)])
+            if kind == 0:  # crossing inside both
+                B_.append([h(o_ - v), h(o_ + v)])
+            elif kind == 1:  # the crossing of the supporting lines lies beyond the end of the second segment
+                B_.append([h(o_ + v), h(o_ + 3 * v)])
+            elif kind == 2:  # skew
+                B_.append([h(o_ + w - v), h(o_ + w + v)])
+            elif kind == 3:  # crossing at an end point of the second segment
+                B_.append([h(o_), h(o_ + 2 * v)])
+            else:  # crossing beyond the end of the first segment
+                B_.append([h(o_ + 3 * u - v), h(o_ + 3 * u + v)])
+        SA, SB = g.SegmentCollection(np.array(A_)), g.SegmentCollection(np.array(B_))
+        for step in (lambda: SA.intersect(SB), lambda: SB.intersect(SA), lambda: SA[0].intersect(SB), lambda: SB.intersect(SA[0]),
+                     lambda: SA.intersect(g.LineCollection(SB.vertices[0], SB.vertices[1])), lambda: SA.intersect(SB[:3]) if False else SA[:3].intersect(SB[:3])):
             try:
                 step()
             except Exception:
